@@ -70,6 +70,25 @@ fn bestmove_json(best: &Option<UciMove>, ponder: &Option<UciMove>) -> Value {
            "best": opt(best.as_ref()), "ponder": opt(ponder.as_ref())})
 }
 
+fn other_json(kind: &str) -> Value {
+    let mut num = Map::new();
+    for k in NUM_KEYS {
+        num.insert(k.to_string(), json!("none"));
+    }
+    json!({"ok": true, "kind": kind, "num": num, "pv": [], "haspv": false, "score": score_json(None), "best": "none", "ponder": "none"})
+}
+
+fn other_kind(c: &UciTxCommand) -> Option<&'static str> {
+    match c {
+        UciTxCommand::IdName { .. } | UciTxCommand::IdAuthor { .. } => Some("id"),
+        UciTxCommand::Ok => Some("uciok"),
+        UciTxCommand::ReadyOk => Some("readyok"),
+        UciTxCommand::Registration { .. } => Some("registration"),
+        UciTxCommand::CopyProtection { .. } => Some("copyprotection"),
+        _ => None,
+    }
+}
+
 struct Session<'a> {
     out: &'a mut Out,
     id: u64,
@@ -134,7 +153,11 @@ impl<'a> Session<'a> {
                     self.out.emit(&json!({"c": self.id, "ev": "out", "m": m}));
                     return;
                 }
-                Ok(_) => {}
+                Ok(other) => {
+                    if let Some(k) = other_kind(&other) {
+                        self.out.emit(&json!({"c": self.id, "ev": "out", "m": other_json(k)}));
+                    }
+                }
                 Err(std::sync::mpsc::RecvTimeoutError::Timeout) => {
                     if !stop_sent {
                         stop_sent = true;
@@ -151,6 +174,23 @@ impl<'a> Session<'a> {
                     self.dead = true;
                     return;
                 }
+            }
+        }
+    }
+
+    /// record the GUI-side thread's replies until `last` has been seen (they are sent synchronously by accept())
+    fn collect_replies(&mut self, last: &str, count: usize) {
+        let mut seen = 0;
+        while seen < count {
+            match self.rx.recv_timeout(Duration::from_secs(10)) {
+                Ok(UciTxCommand::Info { info }) => { let m = info_json(&info); self.out.emit(&json!({"c": self.id, "ev": "out", "m": m})); }
+                Ok(other) => {
+                    if let Some(k) = other_kind(&other) {
+                        self.out.emit(&json!({"c": self.id, "ev": "out", "m": other_json(k)}));
+                        if k == last { seen += 1; }
+                    }
+                }
+                Err(_) => return,
             }
         }
     }
@@ -229,7 +269,18 @@ fn run_steps(out: &mut Out, id: u64, steps: &[Value]) {
         }
         match str_of(step, "t").as_str() {
             "newgame" => { s.emit_in("ucinewgame", json!({})); s.engine.accept(UciCommand::UciNewGame); }
-            "isready" => { s.emit_in("isready", json!({})); s.engine.accept(UciCommand::IsReady); }
+            "isready" => { s.emit_in("isready", json!({})); s.engine.accept(UciCommand::IsReady); s.collect_replies("readyok", 1); }
+            "uci" => { s.emit_in("uci", json!({})); s.engine.accept(UciCommand::Uci); s.collect_replies("uciok", 1); }
+            "register" => {
+                if step.get("later").and_then(Value::as_bool).unwrap_or(false) {
+                    s.emit_in("registerlater", json!({}));
+                    s.engine.accept(UciCommand::RegisterLater);
+                } else {
+                    s.emit_in("register", json!({}));
+                    s.engine.accept(UciCommand::Register { name: "a b".to_string(), code: "1 2".to_string() });
+                    s.collect_replies("registration", 2);
+                }
+            }
             "debug" => { let on = step.get("on").and_then(Value::as_bool).unwrap_or(true); s.emit_in("debug", json!({"on": on})); s.engine.accept(UciCommand::SetDebug { debug: on }); }
             "stop" => { s.emit_in("stop", json!({})); s.engine.accept(UciCommand::Stop); }
             "position" => {
